@@ -1,3 +1,9 @@
--- This module serves as the root of the `EnvVerif` library.
--- Import modules here that should be built as part of the library.
-import EnvVerif.Basic
+-- root of the `EnvVerif` library
+import EnvVerif.Model.Interp
+import EnvVerif.Model.Inv
+import EnvVerif.Lemmas.Basic
+import EnvVerif.Props.C01
+import EnvVerif.Props.C02
+import EnvVerif.Props.C04
+import EnvVerif.Props.C05
+import EnvVerif.Props.C07
